@@ -224,6 +224,23 @@ def run(spec, ctx):
                 if ref_typing.errors(ast):
                     compile_case(ctx, env, Renderer(r).top(ast), False, "labelled", label, ast)
                     ctx.cell("rule_x_position", "%s @ function-argument" % label)
+        # other environments in the process customise their function registries; a standard
+        # environment's verdicts must not move
+        class Custom(jsonpath.JSONPathEnvironment):
+            def setup_function_extensions(self):
+                super().setup_function_extensions()
+                self.function_extensions["first"] = lambda nodes: nodes
+        early = jsonpath.JSONPathEnvironment()
+        other = Custom()
+        other2 = jsonpath.JSONPathEnvironment()
+        other2.function_extensions.pop("match", None)
+        other2.function_extensions["count"] = lambda *a: 1
+        other2.function_extensions["myfn"] = lambda x: x
+        for e in (early, jsonpath.DEFAULT_ENV, env, jsonpath.JSONPathEnvironment()):
+            for text, ok, label in (("$[?first(@.*) == 1]", False, "unknown-function"), ("$[?myfn(@.a) == 1]", False, "unknown-function"), ("$[?match(@.a, 'x.*')]", True, "well-typed"),
+                                    ("$[?count(@.*)]", False, "value-function-as-test"), ("$[?count('abc') == 3]", False, "argument-kind"), ("$[?count(@.*) == 1]", True, "well-typed")):
+                compile_case(ctx, e, text, ok, "registry-history", label)
+                ctx.cell("configurations", "another environment changed its own function registry")
     elif kind == "syntactic":
         mx, mn = (2 ** 53) - 1, -(2 ** 53) + 1
         nenv = narrow_env()
